@@ -599,6 +599,13 @@ func (s *astats) labels() []string {
 	return l
 }
 
+func edited(scr Scribble, what string) string {
+	if scr.Kind == "" {
+		return ""
+	}
+	return " and the caller's edit (" + scr.Kind + ") of " + what
+}
+
 // look calls Current(), compares with the model, lets the caller edit the
 // message and looks again.
 func (s *session) look(st *astats, when string, scr Scribble) (*pb.Configuration, error) {
@@ -606,9 +613,9 @@ func (s *session) look(st *astats, when string, scr Scribble) (*pb.Configuration
 	if !s.currentIs(m) {
 		hint := ""
 		if st.scribbled {
-			hint = " (no load was accepted in between; earlier in this case the caller edited messages it owns: copies obtained from Current(), rejected or superseded messages)"
+			hint = " (earlier in this case the caller edited messages it owns: copies obtained from Current(), rejected or superseded messages)"
 		}
-		return nil, vio("current-is-not-last-accepted", "%s: Current() = {%v}, the last accepted configuration is %v%s", when, m, s.cur, hint)
+		return nil, vio("current-is-not-last-accepted", "Current() = {%v}, the last accepted configuration is %v%s; at %s", m, s.cur, hint, when)
 	}
 	if scr.Kind == "" {
 		return m, nil
@@ -623,7 +630,7 @@ func (s *session) look(st *astats, when string, scr Scribble) (*pb.Configuration
 			}
 		}
 		if again := s.cfg.Current(); !s.currentIs(again) {
-			return nil, vio("current-aliased", "%s: the caller edited (%s) the message Current() had returned - no load, no handler call - and Current() now reports {%v}; the last accepted configuration is %v", when, scr.Kind, again, s.cur)
+			return nil, vio("current-aliased", "the caller edited (%s) the message Current() had returned - no load, no handler call - and Current() now reports {%v}; the last accepted configuration is %v; at %s", scr.Kind, again, s.cur, when)
 		}
 	}
 	return m, nil
@@ -703,7 +710,7 @@ func runAlias(sc *AliasScenario) (st astats, err error) {
 			if scribble(in, stp.Handed, s.cur) {
 				st.scribbled, st.scrRejected = true, true
 			}
-			if _, lerr := s.look(&st, desc+", after the rejected load and the caller's edit ("+stp.Handed.Kind+") of the rejected message", stp.After); lerr != nil {
+			if _, lerr := s.look(&st, desc+", after the rejected load"+edited(stp.Handed, "the rejected message"), stp.After); lerr != nil {
 				return st, lerr
 			}
 			continue
@@ -750,7 +757,7 @@ func runAlias(sc *AliasScenario) (st astats, err error) {
 				st.scrBase = true
 			}
 		}
-		if _, lerr := s.look(&st, desc+", after the accepted load and the caller's edit ("+stp.Handed.Kind+") of the superseded message", stp.After); lerr != nil {
+		if _, lerr := s.look(&st, desc+", after the accepted load"+edited(stp.Handed, "the message of the superseded configuration"), stp.After); lerr != nil {
 			return st, lerr
 		}
 	}
@@ -1055,7 +1062,7 @@ func runOverlap(sc *OverlapScenario) (st ostats, err error) {
 	for i := range errs {
 		results[i] = fmt.Sprintf("load %d (%v): %v", i, specs[i], errs[i])
 	}
-	desc := fmt.Sprintf("loads in flight together on current=%v [%s]; load 0 parked inside its handler call %d (0: not parked); handler calls in the order they were invoked %s", start, strings.Join(results, "; "), parkAt, callList(seq))
+	desc := fmt.Sprintf("load 0 was parked inside its handler call %d (0: not parked) while the others were started; current=%v [%s]", parkAt, start, strings.Join(results, "; "))
 
 	// 1. The statement itself: replaying the calls in the order they were
 	// invoked yields the current configuration.
@@ -1064,10 +1071,10 @@ func runOverlap(sc *OverlapScenario) (st ostats, err error) {
 		set[k] = v
 	}
 	if rerr := replayCalls(set, seq); rerr != nil {
-		return st, vio("overlap-"+failClass(rerr), "%s: %v", desc, rerr)
+		return st, vio("overlap-"+failClass(rerr), "replaying the handler calls of loads in flight together, in the order they were invoked %s: %v; %s", callList(seq), rerr, desc)
 	}
 	if d := diffViews(set, view(final), nil); d != "" {
-		return st, vio("overlap-replay-mismatch", "%s: replaying them does not yield Current(): %s", desc, d)
+		return st, vio("overlap-replay-mismatch", "replaying the handler calls of loads in flight together, in the order they were invoked %s, does not yield Current(): %s; %s", callList(seq), d, desc)
 	}
 
 	// 2. Results, batches and final configuration are those of one order.
@@ -1133,7 +1140,7 @@ func runOverlap(sc *OverlapScenario) (st ostats, err error) {
 		whyNot = append(whyNot, fmt.Sprintf("order %v: %s", o.order, reason))
 	}
 	if hit == nil {
-		return st, vio("overlap-not-sequential", "%s: no order of the loads explains this (every load's calls must form one uninterrupted batch, the difference against the configuration the load before it left) - %s", desc, strings.Join(whyNot, " | "))
+		return st, vio("overlap-not-sequential", "no sequential order of the loads in flight explains results, handler calls %s and Current() (every load's calls must form one uninterrupted batch: the difference against the configuration the load before it left) - %s; %s", callList(seq), strings.Join(whyNot, " | "), desc)
 	}
 	st.matched = strings.Trim(strings.ReplaceAll(fmt.Sprint(hit.order), " ", "-"), "[]")
 	s.replayed = set
